@@ -8,15 +8,16 @@ same wire string decoded twice.
   PT:<us>  pd.Timestamp        DT:<us>  datetime.date        HF:<q>|HF:nan  np.float32 (value q/4)
   M8<unit>:<us>  np.datetime64[unit] (unit D|h|s|ms|us|ns) of that instant       NaT:M np.datetime64('NaT')  NaT:m np.timedelta64('NaT')  NaT:P pd.NaT
   TD:<us>  datetime.timedelta  PD:<us>  pd.Timedelta         m8<unit>:<us>  np.timedelta64[unit] of that duration (unit W|D|h|m|s|ms|us|ns)
+  M8ps:<n> / M8fs:<n> / M8as:<n>  np.datetime64 of n pico / femto / attoseconds since 1970 (review v5: the COUNT; pandas would truncate it to ns, Timestamp == says so)
   m8Y:<n> / m8M:<n> (CM:<n> = m8M:<n>)  np.timedelta64 of n YEARS / MONTHS (review t5: pandas holds no such duration, numpy == says it is the int n)
-  (L ..) (T ..) (D (k v)..)    (DC <n> (k v)..)   n=1 pyg_base.Dict, n=2 pyg_base.dictattr
-  (A <dtype i|f|e|b|U|o|Mns|Mus|Ms|MD|mns|mus|mD|mY|mM> (<shape>) cells..)   e = float32, M.. = datetime64[..] (cells T:<us> / NaT:P), m.. = timedelta64[..]
+  (L ..) (T ..) (D (k v)..)    (DC <n> (k v)..)   n=1 pyg_base.Dict, n=2 pyg_base.dictattr, n=3 collections.OrderedDict
+  (A <dtype i|f|e|b|U|o|Mns|Mus|Ms|MD|Mps|Mfs|mns|mus|mD|mY|mM> (<shape>) cells..)   e = float32, M.. = datetime64[..] (cells T:<us> / NaT:P), m.. = timedelta64[..]
   (cells TD:<us> / NaT:P)        (S (labels) cells..)   (DF (index) (columns) cells row-major..)
 
 ops: (eq eq x y), (eq in x seq), (eq pyeq x y) native == on plain values, (eq eqr x y) the model answers with the raising reading eqR,
 (eq eqpinned x y) the model answers with eqPinned and the implementation is eq of _eq.py as it was before fix F6c (see pinned_eq).
 """
-import datetime, itertools
+import collections, datetime, itertools
 import numpy as np
 import pandas as pd
 from .. import proto
@@ -29,12 +30,13 @@ RULE = ('distinct (x, y) protocol lines with x and y spelled differently on whic
         '(pairs of identical atoms are not counted)')
 TRUSTED = ['correspondence harness (pv.engine, pv.proto) and the generators / decoder of pv.props.c14',
            'Lean driver parser (PygModel/Basic.lean, EqDriver.lean)']
-ASSUMPTIONS = ['CPython == on None/bool/int/float/str/datetime/date and on lists/tuples/dicts of them is the reference function Cell.pyEq / pyEqV (sampled by the pyeq op)',
-               'numpy scalars, pd.Timestamp and pd.Timedelta are == to the python values the wire format identifies them with; np.datetime64 (units D..ns) / np.timedelta64 (units W..ns) are the Timestamp / Timedelta of their instant / duration (that is the repair C14-F6, not an assumption about numpy: numpy own == casts units); an np.timedelta64 in years / months is no Timedelta: it equals only year / month durations of as many months (repair C14-F9; numpy: 12 months to the year, no common unit with days); pd.NaT is one object',
+ASSUMPTIONS = ['python == of two collections.OrderedDicts is order-sensitive, eq is not (an OrderedDict is dict class 3: never eq to a plain dict, items compared key-sorted; theorem eq_ordered_dict_ignores_order): the clause "agrees with == on plain values" is read for the exact class dict and the == law is not applied to class 3',
+               'CPython == on None/bool/int/float/str/datetime/date and on lists/tuples/dicts of them is the reference function Cell.pyEq / pyEqV (sampled by the pyeq op)',
+               'numpy scalars, pd.Timestamp and pd.Timedelta are == to the python values the wire format identifies them with; np.datetime64 (units D..ns) / np.timedelta64 (units W..ns) are the Timestamp / Timedelta of their instant / duration (that is the repair C14-F6, not an assumption about numpy: numpy own == casts units); an np.timedelta64 in years / months is no Timedelta: it equals only year / month durations of as many months (repair C14-F9; numpy: 12 months to the year, no common unit with days); an np.datetime64 in ps / fs / as is no Timestamp (pandas would truncate it): it equals only the ps / fs / as datetime64 of the same instant (repair C14-F10; numpy == between two of them is exact); pd.NaT is one object',
                'np.vectorize(eq) visits every cell of two equally shaped arrays; list(pd.Index) yields the labels as the python / pandas scalars the wire format spells (a NaN among datetime labels is NaT, which the model treats as the NaN label it is spelled as)',
                'object identity (the `x is y` shortcut) is not modelled: every call decodes fresh objects; the shared np.nan object is generated (NF:nan)',
                'numbers are spelled exactly (ints of any size, floats that are multiples of 1/4 - 2**53 and its neighbours included); np.float32 scalars and arrays hold such values exactly',
-               'dict keys are distinct strings; pandas extension arrays and their pd.NA, datetime64 / timedelta64 units finer than ns (ps, fs, as: after C14-F9 such a duration equals only timedelta64s numpy calls equal, never a number - probed, not generated), out-of-bounds datetime64 / timedelta64, tz-aware timestamps, complex / Decimal NaN, None labels and Series names are outside the universe']
+               'dict keys are distinct strings; pandas extension arrays and their pd.NA, timedelta64 units finer than ns (ps, fs, as: after C14-F9 such a duration equals only timedelta64s numpy calls equal, never a number - probed, not generated; datetime64 in ps / fs / as IS generated since C14-F10, but not as an axis label), out-of-bounds datetime64 / timedelta64, tz-aware timestamps, complex / Decimal NaN, None labels and Series names are outside the universe']
 
 D = datetime.datetime
 BIG = 2 ** 53
@@ -54,6 +56,8 @@ def w(x):
         return x
     if x is pd.NaT:
         return W('NaT:P')
+    if isinstance(x, np.datetime64) and not np.isnat(x) and np.datetime_data(x.dtype)[0] in FINE:
+        return W('M8%s:%d' % (np.datetime_data(x.dtype)[0], x.astype(np.int64)))      # finer than a microsecond: the COUNT in its own unit
     if isinstance(x, np.datetime64):
         return W('NaT:M' if np.isnat(x) else 'M8%s:%d' % (np.datetime_data(x.dtype)[0], proto.dt2us(x.astype('M8[us]').item())))
     if isinstance(x, np.timedelta64) and not np.isnat(x) and np.datetime_data(x.dtype)[0] in ('Y', 'M'):
@@ -96,7 +100,10 @@ def DF(idx, cols, *cells):
 # ---------------------------------------------------------------- decoding into fresh python objects
 
 DTYPES = {'i': np.int64, 'f': np.float64, 'e': np.float32, 'b': bool, 'U': str,
-          'Mns': 'M8[ns]', 'Mus': 'M8[us]', 'Ms': 'M8[s]', 'MD': 'M8[D]', 'mns': 'm8[ns]', 'mus': 'm8[us]', 'mD': 'm8[D]', 'mY': 'm8[Y]', 'mM': 'm8[M]'}
+          'Mns': 'M8[ns]', 'Mus': 'M8[us]', 'Ms': 'M8[s]', 'MD': 'M8[D]', 'Mps': 'M8[ps]', 'Mfs': 'M8[fs]', 'mns': 'm8[ns]', 'mus': 'm8[us]', 'mD': 'm8[D]', 'mY': 'm8[Y]', 'mM': 'm8[M]'}
+
+
+FINE = ('ps', 'fs', 'as')
 
 
 class F32(object):
@@ -112,6 +119,8 @@ def dec_cell(a):
         return np.float32('nan') if a == 'HF:nan' else np.float32(int(a[3:]) / 4)
     if a.startswith('NaT:'):
         return {'P': pd.NaT, 'M': np.datetime64('NaT'), 'm': np.timedelta64('NaT')}[a[4:]]
+    if a[:5] in ('M8ps:', 'M8fs:', 'M8as:'):
+        return np.datetime64(int(a[5:]), a[2:4])
     if a.startswith('M8'):
         unit, us = a[2:].split(':')
         return np.datetime64(proto.us2dt(int(us)), 'us').astype('M8[%s]' % unit)[()]
@@ -139,7 +148,7 @@ def dec(x):
     if head == 'D':
         return {proto.unhex(kv[0]): dec(kv[1]) for kv in rest}
     if head == 'DC':
-        cls = {1: Dict, 2: dictattr}[int(rest[0])]
+        cls = {1: Dict, 2: dictattr, 3: collections.OrderedDict}[int(rest[0])]
         return cls({proto.unhex(kv[0]): dec(kv[1]) for kv in rest[1:]})
     if head == 'A':
         dtype, shape, cells = rest[0], tuple(int(n) for n in rest[1]), [dec(c) for c in rest[2:]]
@@ -193,7 +202,8 @@ def _column(cells, as_objects=False):
     """a pandas column from decoded cells: containers are stored as objects, never expanded"""
     # (a year / month np.timedelta64 can only be an object cell: pandas refuses the unit in a list and reads an m8[M] ARRAY as average seconds)
     if as_objects or any(isinstance(c, (list, tuple, dict, np.ndarray, pd.Series, pd.DataFrame)) or
-                         (isinstance(c, np.timedelta64) and np.datetime_data(c.dtype)[0] in ('Y', 'M')) for c in cells):
+                         (isinstance(c, np.timedelta64) and np.datetime_data(c.dtype)[0] in ('Y', 'M')) or
+                         (isinstance(c, np.datetime64) and np.datetime_data(c.dtype)[0] in FINE) for c in cells):      # pandas would truncate a ps cell to ns
         a = np.empty(len(cells), dtype=object)
         for i, c in enumerate(cells):
             a[i] = c
@@ -257,6 +267,11 @@ def universe():
          t64(1, 'Y'), t64(12, 'M'), t64(1, 'M'), t64(0, 'M'), t64(0, 'D'), t64(365, 'D'), 12, 0.0, [t64(1, 'Y')], [t64(12, 'M')], [12],
          A('mY', (1,), t64(1, 'Y')), A('mM', (1,), t64(12, 'M')), A('mM', (1,), t64(1, 'M')), A('i', (1,), 12), A('o', (1,), t64(1, 'Y')), A('mD', (1,), TD(days=365)),
          S([0], t64(12, 'M')), S([0], 12), {'a': t64(1, 'Y')}, {'a': 12},
+         # datetime64 finer than ns (review v5, C14-F10): Timestamp == truncates to ns (0 ps and 1 ps both == Timestamp(0)), datetime == (numpy's) does not
+         D(1970, 1, 1), pd.Timestamp('1970-01-01'), d64(0, 'ns'), d64(0, 'us'), d64(0, 'ps'), d64(1, 'ps'), d64(1000, 'fs'), d64(0, 'as'), d64(1000, 'ps'),
+         datetime.date(1970, 1, 1), [D(1970, 1, 1)], [pd.Timestamp('1970-01-01')], [d64(0, 'ps')], {'a': d64(0, 'ps')}, {'a': D(1970, 1, 1)},
+         A('Mps', (1,), d64(0, 'ps')), A('Mfs', (1,), d64(0, 'fs')), A('Mps', (1,), d64(1, 'ps')), A('Mns', (1,), D(1970, 1, 1)), A('o', (1,), D(1970, 1, 1)), A('o', (1,), d64(0, 'ps')),
+         A('i', (1,), 0), S([0], d64(0, 'ps')), S([0], D(1970, 1, 1)),
          # datetime64 / timedelta64 arrays (C14-F7) next to int arrays holding what astype(object) makes of an M8[ns] cell, and to object arrays
          A('Mns', (1,), D(2020, 1, 1)), A('Mus', (1,), D(2020, 1, 1)), A('MD', (1,), D(2020, 1, 1)), A('Ms', (1,), D(2020, 1, 1)), A('i', (1,), NS2020),
          # the SAME integer payload under different units (seeded C14-u1: a memo of converted cells keyed without the unit): days 1, 2
@@ -276,7 +291,9 @@ def universe():
          [ts], [D(2020, 1, 1)],
          # dicts and subclasses
          {'a': None}, {'b': None}, {'a': 1, 'b': None}, {'a': 1, 'c': None}, [{'a': None}], [{'b': None}],      # a key that is missing must not read as None
-         {'a': 1}, DC(1, a=1), DC(2, a=1), {'a': 1.0}, {'a': 2}, {'b': 1}, {'a': 1, 'b': 2}, {'b': 2, 'a': 1}, {'a': nan}, {'a': {'x': nan}},
+         {'a': 1}, DC(1, a=1), DC(2, a=1), {'a': 1.0},
+         # OrderedDict (review v5): a dict subclass - never eq to the plain dict, and eq sorts its items like any dict's: insertion order is ignored (python == of two OrderedDicts is not)
+         DC(3, a=1), DC(3, a=1, b=2), DC(3, b=2, a=1), DC(3), [DC(3, b=2, a=1)], DC(1, b=2, a=1), {'a': 2}, {'b': 1}, {'a': 1, 'b': 2}, {'b': 2, 'a': 1}, {'a': nan}, {'a': {'x': nan}},
          {'a': [1, 2], 'b': [3, 4]}, {'a': (1, 2), 'b': (3, 4)}, {'a': [1, 2], 'b': [3]},
          # arrays
          A('i', (), 1), A('f', (), 1.0), A('i', (1,), 1), A('f', (1,), 1.0), A('i', (2,), 1, 2), A('f', (2,), 1.0, 2.0), A('f', (2,), nan, 2.0),
@@ -303,7 +320,8 @@ SCALARS = [None, True, False, 0, 1, -1, 2, 3, 1.0, 2.0, 2.5, -0.25, '', 'a', 'b'
            pd.Timestamp('2020-01-02'), np.int64(1), np.float64(2.5), np.float64(1.0), np.bool_(False), float('inf'),
            BIG, BIG + 1, float(BIG), np.int64(BIG + 1), np.float64(BIG), F32(2.5), F32(1.0),
            d64('2020-01-01'), d64('2020-01-01', 'ns'), d64('2020-01-02', 'us'), d64('2020-01-02T00', 'h'), t64(1, 'D'), t64(24, 'h'), TD(days=1), TD(days=2), pd.Timedelta(days=2), 24,
-           t64(2, 'Y'), t64(24, 'M'), t64(2, 'M'), t64(1, 'W'), t64(7, 'D'), 12]
+           t64(2, 'Y'), t64(24, 'M'), t64(2, 'M'), t64(1, 'W'), t64(7, 'D'), 12,
+           D(1970, 1, 1), pd.Timestamp('1970-01-01'), d64(0, 'ps'), d64(1, 'ps'), d64(1000, 'fs'), d64(0, 'ns'), d64(0, 'as')]
 TIMES = [D(2020, 1, 1), D(2020, 1, 2), D(2020, 1, 2), pd.NaT]
 SPANS = [TD(days=1), TD(days=2), TD(days=2), pd.NaT]
 LABELS = [[0, 1, 2, 3], [1, 2, 3, 4], ['a', 'b', 'c', 'd'], [D(2020, 1, 1), D(2020, 1, 2), D(2020, 1, 3), D(2020, 1, 6)], [0.0, 1.0, 2.0, 3.0],
@@ -331,6 +349,8 @@ def rand_num(rng, dtype):
         return rng.choice([0.0, 1.0, 2.0, 2.5, -0.25, float('nan'), 100000.0, 100000.25])
     if dtype == 'b':
         return rng.choice([True, False])
+    if dtype in ('Mps', 'Mfs'):
+        return rng.choice([d64(0, dtype[1:]), d64(1, dtype[1:]), d64(1, dtype[1:]), d64(1000, dtype[1:]), pd.NaT])
     if dtype[0] == 'M':
         return rng.choice(TIMES)
     if dtype == 'mY':
@@ -365,11 +385,11 @@ def rand_val(rng, depth):
     if r < 0.7:
         keys = rng.sample(['a', 'b', 'c', 'd'], n)
         items = {k: rand_val(rng, depth - 1) for k in keys}
-        c = rng.choice([0, 0, 1, 2])
+        c = rng.choice([0, 0, 0, 1, 2, 3])
         return w(items) if c == 0 else DC(c, **items)
     if r < 0.85:
         shape = rand_shape(rng)
-        dtype = rng.choice(['i', 'f', 'f', 'e', 'b', 'U', 'o', 'Mns', 'Mus', 'MD', 'mns', 'mD', 'mY', 'mM'])
+        dtype = rng.choice(['i', 'f', 'f', 'e', 'b', 'U', 'o', 'Mns', 'Mus', 'MD', 'Mps', 'Mfs', 'mns', 'mD', 'mY', 'mM'])
         if dtype == 'o':
             return A('o', shape, *[rand_val(rng, depth - 1) for _ in range(prod(shape))])
         return A(dtype, shape, *[rand_num(rng, dtype) for _ in range(prod(shape))])
@@ -427,7 +447,7 @@ def mutate(rng, sx):
     if head in ('D', 'DC'):
         items = sx[1:] if head == 'D' else sx[2:]
         if r < 0.3:
-            return ['DC', rng.choice(['1', '2'])] + items if head == 'D' else ['D'] + items
+            return ['DC', rng.choice(['1', '2', '3'])] + items if head == 'D' else ['D'] + items
         if r < 0.45 and items:
             items = list(items)
             rng.shuffle(items)
@@ -447,6 +467,22 @@ def mutate(rng, sx):
             return ['L'] + cells
         if r < 0.55 and dtype == 'i':
             return ['A', 'f', shape] + [proto.enc(float(int(c[2:]))) for c in cells]
+        if r < 0.6 and dtype in ('Mps', 'Mfs'):
+            # the same instants in the other fine unit (exact), as objects, as the ns array pandas would truncate them to, as the int array of the counts
+            to = rng.choice(['Mps', 'Mfs', 'o', 'Mns', 'i'])
+            fine = [c for c in cells if c.startswith('M8')]
+            if to == 'i' and len(fine) == len(cells):
+                return ['A', 'i', shape] + ['I:' + c.split(':')[1] for c in cells]
+            if to == 'Mns':
+                return ['A', 'Mns', shape] + [w(pd.Timestamp(dec_cell(c)).to_pydatetime()) if c.startswith('M8') else c for c in cells]
+            if to in ('Mps', 'Mfs'):
+                # an array holds its cells in ITS unit: ps as fs is exact, fs as ps only for whole picoseconds (else the cells stay objects)
+                if to == 'Mfs':
+                    return ['A', to, shape] + ['M8fs:%d' % (int(c[5:]) * 1000) if c.startswith('M8ps:') else c for c in cells]
+                if all(int(c[5:]) % 1000 == 0 for c in cells if c.startswith('M8fs:')):
+                    return ['A', to, shape] + ['M8ps:%d' % (int(c[5:]) // 1000) if c.startswith('M8fs:') else c for c in cells]
+                to = 'o'
+            return ['A', to if to != 'i' else 'o', shape] + cells
         if r < 0.6 and dtype[0] == 'M':
             to = rng.choice(['Mns', 'Mus', 'Ms', 'MD', 'o', 'o', 'i', 'i'])
             if to == 'i' and all(c.startswith('T:') for c in cells):        # what M8[ns].astype(object) holds: ns since 1970
